@@ -107,6 +107,7 @@ Section Paths.
   Variable E : env.
   Variable d : nat.
   Hypothesis Hbound : e_bound E = true.
+  Hypothesis Hrun : folding E = false.      (* an execution, not the compiler's constant folding *)
 
   Lemma access_step obj f st lg :
     plainv obj -> has_func E f = false -> has_macro E f = false ->
@@ -114,8 +115,8 @@ Section Paths.
   Proof.
     intros Hp Hf Hm. cbn [step]. unfold mbind at 1. cbn [pop_noresolve mret].
     unfold mbind at 1. rewrite (resolves_plain rs E d obj lg Hp st).
-    destruct obj; cbn [field]; rewrite ?Hbound, ?Hf, ?Hm; cbn [negb]; try reflexivity;
-      try (destruct (map_get m f); reflexivity); try (destruct Hp).
+    destruct obj; cbn [field]; rewrite ?Hbound, ?Hf, ?Hm, ?Hrun; cbn [negb]; try reflexivity;
+      try (destruct (map_get m f); rewrite ?Hrun; reflexivity); try (destruct Hp).
   Qed.
 
   (** A path of field accesses from a value computes the fold of [field]:
@@ -133,7 +134,7 @@ Section Paths.
     - cbn [path_vals] in Hpl. inv Hpl.
       destruct (Hnf f (or_introl eq_refl)) as [Hf Hm].
       destruct (IH (field v f) st lg H2 (fun g Hg => Hnf g (or_intror Hg))
-                   (p ++ [IPush (VIdent f); IAccess]) q) as (fuel & Hrun).
+                   (p ++ [IPush (VIdent f); IAccess]) q) as (fuel & Hloop).
       exists (S (S fuel)). intros extra.
       cbn [path_code flat_map app] in *.
       change (flat_map (fun f0 : bytes => [IPush (VIdent f0); IAccess]) r) with (path_code r) in *.
@@ -148,10 +149,10 @@ Section Paths.
       rewrite loop_S, N0. cbn [step]. unfold mret, push.
       rewrite loop_S, N1.
       rewrite (access_step v f st lg H1 Hf Hm).
-      rewrite Ecode. specialize (Hrun extra).
-      replace (length (p ++ [IPush (VIdent f); IAccess])) with (S (S (length p))) in Hrun
+      rewrite Ecode. specialize (Hloop extra).
+      replace (length (p ++ [IPush (VIdent f); IAccess])) with (S (S (length p))) in Hloop
         by (rewrite app_length; cbn; lia).
-      rewrite Hrun. cbn [length fold_left]. f_equal. lia.
+      rewrite Hloop. cbn [length fold_left]. f_equal. lia.
   Qed.
 End Paths.
 
